@@ -115,6 +115,28 @@ pub fn check_position(p: &Pos, loc: &mut Local) -> Result<(), String> {
         }
         loc.nontrivial(&(p.fen4(), &text, "neg"));
     }
+    // move LISTS in coordinate notation (what `info pv` prints): the texts of the moves, in order,
+    // separated by single blanks - also when a move occurs more than once in the list
+    let moves: Vec<weechess_core::Move> = set.moves().iter().map(|r| r.0).collect();
+    if !moves.is_empty() {
+        let mut x = crate::runner::h64(&p.fen4());
+        for _ in 0..4 {
+            let len = (crate::runner::splitmix(&mut x) % 9) as usize;
+            // drawn from at most three distinct moves, so that repetitions are the rule
+            let pool = (crate::runner::splitmix(&mut x) % 3) as usize + 1;
+            let base = (crate::runner::splitmix(&mut x) % moves.len() as u64) as usize;
+            let list: Vec<weechess_core::Move> = (0..len).map(|_| moves[(base + (crate::runner::splitmix(&mut x) % pool as u64) as usize) % moves.len()]).collect();
+            let written = into_notation::<_, Lan>(&&list[..]).to_string();
+            let want = list.iter().map(|m| into_notation::<_, Lan>(m).to_string()).collect::<Vec<_>>().join(" ");
+            loc.eval();
+            if written != want {
+                return Err(format!("'{}': the move list {:?} is written as '{}', expected '{}'", p.fen(), list.iter().map(|m| glue::read_move(m).lan()).collect::<Vec<_>>(), written, want));
+            }
+            if len >= 3 {
+                loc.class("move_list_written");
+            }
+        }
+    }
     Ok(())
 }
 
@@ -172,7 +194,8 @@ pub fn plan(ctx: &Ctx) -> Plan {
                '=Q' and 'Q' promotion forms, with and without the appropriate '+'/'#', O-O/O-O-O, long pawn forms); each \
                must parse to a query that MoveSet::filter resolves to exactly that move. Every pseudo-legal-but-illegal \
                move, spelled with full origin, must resolve to nothing. The Lan text of each move must equal origin + \
-               destination + lower-case promotion letter, and the query built from that text must select the same move. \
+               destination + lower-case promotion letter, and the query built from that text must select the same move; move lists (with repeated moves) must be written as \
+               the single texts separated by blanks. \
                Non-trivial = distinct (position, spelling) needing disambiguation or carrying promotion/castle/ep/suffix; all negatives.",
         assumptions: &["only spellings a PGN writer may produce are generated (no 'Pe4', '0-0', 'e.p.')", "the mailbox rules oracle is correct (anchored to published perft counts)"],
         self_test: super::oracle_self_test,
